@@ -143,6 +143,11 @@ func Run(r *core.Run) {
 		if r.Thorough() {
 			jobs = append(jobs, job{c, (k + 3) % len(combos), len(jobs)})
 		}
+		if os.Getenv("C09_ALLCOMBOS") != "" { // developer switch
+			for d := 1; d < len(combos); d++ {
+				jobs = append(jobs, job{c, (k + d) % len(combos), len(jobs)})
+			}
+		}
 	}
 	var traceMu sync.Mutex
 	var traces []*traceRec
@@ -169,6 +174,7 @@ func Run(r *core.Run) {
 		}
 	})
 	validateTraces(r, &cnt, traces)
+	watchLoop(r, &cnt)
 
 	wg.Wait()
 	r.Set("histories_replayed", cnt.histories)
